@@ -264,6 +264,8 @@ def function_yaml(name, k, d, t, g, explicit):
                                        {"decl": "(double a0)", "function_suffix": "_gd"}]
             decl = decl.replace("int a0", "double a0")
         node["decl"] = decl
+        if explicit == "cppif" and i == 0 and k > 1:
+            node["cpp_if"] = "ifdef HAVE_FIRST"          # only the first overload is conditional
         if explicit in (True, "blank") and k > 1:
             # "blank": the first overload is given an explicitly empty suffix (it keeps the plain name)
             node.setdefault("format", {})["function_suffix"] = "" if (explicit == "blank" and i == 0) else "_ov%s" % "abc"[i]
@@ -407,6 +409,80 @@ def emitted_names(res):
     return out
 
 
+def struct_suffix_verdict():
+    """A struct used as the single template argument: the instantiation's suffix is the struct's own
+    `format: template_suffix` when it gives one (documented: the type's explicit suffix, else '_' + its flat name)."""
+    lib = {"library": "lib", "cxx_header": "lib.hpp", "options": {"wrap_python": False, "wrap_lua": False}, "declarations": [
+        {"decl": "struct Qpair { int a; int b; }", "format": {"template_suffix": "_pr"}},
+        {"decl": "struct Qtrio { int a; }"},
+        {"decl": "template<typename T> int qfa(T v)",
+         "cxx_template": [{"instantiation": "<Qpair>"}, {"instantiation": "<Qtrio>"}, {"instantiation": "<int>"}]}]}
+    try:
+        names = emitted_names(pipeline.run(lib))
+    except Exception as ex:
+        return "generation fails: %s: %s" % (type(ex).__name__, str(ex)[:150])
+    got = sorted(n for n in names["c"] if "qfa" in n)
+    want = sorted(["LIB_qfa_pr", "LIB_qfa_Qtrio", "LIB_qfa_int"])
+    if got != want:
+        return "template instantiated with structs: the documented suffixes give %r, emitted %r" % (want, got)
+    return None
+
+
+def conditional_generics(res):
+    """A generic interface that sits inside a preprocessor conditional while one of the specifics it lists is defined
+    outside any conditional: with the macro undefined the specific exists but its generic name does not.
+    Returns a description or None."""
+    texts = cc.file_texts(res)
+    for f, t in sorted(texts.items()):
+        if not f.endswith(".f"):
+            continue
+        stack = []
+        defined = {}          # procedure -> conditional stack at its definition
+        ifaces = []           # (name, stack, [procedures])
+        cur = None
+        in_anon = False
+        for ln in t.splitlines():
+            s_ = ln.strip()
+            if s_.startswith("#if"):
+                stack.append(s_)
+                continue
+            if s_.startswith("#endif"):
+                if stack:
+                    stack.pop()
+                continue
+            if s_.startswith("#"):
+                continue
+            m = re.match(r"(?i)^interface\s+(\w+)\s*$", s_)
+            if m:
+                cur = (m.group(1).lower(), tuple(stack), [])
+                continue
+            if re.match(r"(?i)^interface\s*$", s_):
+                in_anon = True
+                continue
+            if re.match(r"(?i)^end interface", s_):
+                if cur is not None:
+                    ifaces.append(cur)
+                cur = None
+                in_anon = False
+                continue
+            if cur is not None:
+                m = re.match(r"(?i)^module procedure\s+(\w+)", s_)
+                if m:
+                    cur[2].append((m.group(1).lower(), tuple(stack)))
+                continue
+            if not in_anon:
+                m = re.match(r"(?i)^(?:[\w()=, ]*\s)?(?:function|subroutine)\s+(\w+)\s*\(", s_)
+                if m:
+                    defined.setdefault(m.group(1).lower(), tuple(stack))
+        for name, istack, procs in ifaces:
+            for p_, pstack in procs:
+                dstack = defined.get(p_)
+                if dstack is not None and len(dstack) < len(istack):
+                    return "generic %s is inside %s but its specific %s is defined unconditionally: without the macro %s exists and %s does not" % (
+                        name, istack[-1], p_, p_, name)
+    return None
+
+
 def dups(lst):
     seen, d = set(), []
     for x in lst:
@@ -456,6 +532,9 @@ def check_structure(scope, funcs):
             r = pipeline.run(lib)
         except Exception as ex:
             return "generation fails: %s: %s" % (type(ex).__name__, str(ex)[:200]), None
+        cg = conditional_generics(r)
+        if cg:
+            return cg, None
         results.append((atoms, emitted_names(r)))
     atoms, names = results[0]
     # distinctness
@@ -642,6 +721,9 @@ def structures(tier):
             if s[2] and s[1] and s[0] == 1:
                 continue        # known finding: function template with trailing default arguments
             out.append((scope, [s]))
+    for scope in ("lib", "ns", "cls"):
+        out.append((scope, [(2, 0, 0, 0, "cppif")]))
+        out.append((scope, [(3, 0, 0, 0, "cppif")]))
     for scope in ("ns", "cls"):
         for case in ("lower", "upper"):
             for s in [(1, 0, 0, 0, True), (2, 1, 0, 0, True), (1, 2, 0, 0, True)]:
@@ -697,6 +779,8 @@ def confirm_struct(w):
 
 
 def confirm(w):
+    if w.get("kernel") == "struct-suffix":
+        return struct_suffix_verdict()
     if w.get("kernel") == "un_camel":
         from shroud import util
         got = util.un_camel(w["text"])
@@ -745,6 +829,9 @@ def main():
     if nunk:
         rep.inconc("%d z3 string queries returned unknown" % nunk)
     viol = list(total.violations)
+    sv = struct_suffix_verdict()
+    if sv:
+        viol.append({"kernel": "struct-suffix", "what": sv, "_vkey": "struct-suffix"})
     for r in recs:
         if r["what"]:
             viol.append({"kernel": "structure", "scope": r["scope"], "funcs": r["funcs"], "what": r["what"],
